@@ -4,7 +4,7 @@
 //! logical operators that can be optimized by the Cascades optimizer.
 
 use crate::{
-    schema::{Schema, catalog::StatisticsProvider},
+    schema::{Column, Schema, catalog::StatisticsProvider},
     sql::{
         binder::bounds::*,
         parser::ast::JoinType,
@@ -64,7 +64,22 @@ impl<'a> Planner<'a> {
         };
 
         // GROUP BY / aggregates
-        let aggregated = if !select.group_by.is_empty() || self.has_aggregates(&select.columns) {
+        //
+        // The aggregate operator emits its group keys first and its aggregates after them. A select
+        // list of exactly that shape is handed to it as is. Any other select list made of group
+        // keys and plain aggregates (aggregates first, keys reordered or left out, a key twice) is
+        // computed in the operator's own shape and put into select-list order by a projection.
+        let is_aggregate_query =
+            !select.group_by.is_empty() || self.has_aggregates(&select.columns);
+        let reshaped = if is_aggregate_query {
+            self.aggregate_reshaping(select)
+        } else {
+            None
+        };
+
+        let aggregated = if let Some((agg_columns, agg_schema, _)) = &reshaped {
+            self.build_aggregate(filtered, &select.group_by, agg_columns, agg_schema)?
+        } else if is_aggregate_query {
             self.build_aggregate(filtered, &select.group_by, &select.columns, &select.schema)?
         } else {
             filtered
@@ -79,13 +94,42 @@ impl<'a> Planner<'a> {
         // ORDER BY (must go before the projection since it needs the full input schema)
         let sorted = if !select.order_by.is_empty() {
             let input_props = self.get_group_properties(having_applied)?;
-            self.build_sort(having_applied, &select.order_by, &input_props.schema)?
+            // Above an aggregate the rows have the shape of the aggregate's output, not of the FROM
+            // clause: an ORDER BY key that is one of its items refers to that output column.
+            let order_by: Vec<BoundOrderBy> = if is_aggregate_query {
+                let items: &[BoundSelectItem] = match &reshaped {
+                    Some((agg_columns, _, _)) => agg_columns,
+                    None => &select.columns,
+                };
+                select
+                    .order_by
+                    .iter()
+                    .map(|o| match items.iter().find(|item| item.expr == o.expr) {
+                        Some(item) => BoundOrderBy {
+                            expr: BoundExpression::ColumnBinding(Binding {
+                                table_id: None,
+                                scope_index: 0,
+                                column_idx: item.output_idx,
+                                data_type: item.expr.data_type(),
+                            }),
+                            asc: o.asc,
+                            nulls_first: o.nulls_first,
+                        },
+                        None => o.clone(),
+                    })
+                    .collect()
+            } else {
+                select.order_by.clone()
+            };
+            self.build_sort(having_applied, &order_by, &input_props.schema)?
         } else {
             having_applied
         };
 
         // SELECT projection (after sort)
-        let projected = if !self.has_aggregates(&select.columns) {
+        let projected = if let Some((_, _, select_order)) = &reshaped {
+            self.build_project(sorted, select_order, &select.schema)?
+        } else if !is_aggregate_query {
             self.build_project(sorted, &select.columns, &select.schema)?
         } else {
             sorted
@@ -160,6 +204,69 @@ impl<'a> Planner<'a> {
         let input_props = self.get_group_properties(input)?;
         let op = LogicalOperator::Filter(FilterOp::new(predicate, input_props.schema.clone()));
         self.insert_with_properties(op, vec![input])
+    }
+
+    /// For an aggregate query whose select list is made of group keys and plain aggregates but is
+    /// not `[group keys in GROUP BY order.., aggregates..]`: the item list and schema in the
+    /// aggregate operator's own shape, and the select list rewritten as references into it.
+    fn aggregate_reshaping(
+        &self,
+        select: &BoundSelect,
+    ) -> Option<(Vec<BoundSelectItem>, Schema, Vec<BoundSelectItem>)> {
+        let num_keys = select.group_by.len();
+        let already_in_shape = select.columns.len() >= num_keys
+            && select.columns[..num_keys]
+                .iter()
+                .zip(&select.group_by)
+                .all(|(item, key)| &item.expr == key)
+            && select.columns[num_keys..]
+                .iter()
+                .all(|item| matches!(item.expr, BoundExpression::Aggregate { .. }));
+        if already_in_shape {
+            return None;
+        }
+
+        let mut agg_columns: Vec<BoundSelectItem> = select
+            .group_by
+            .iter()
+            .enumerate()
+            .map(|(i, key)| BoundSelectItem {
+                expr: key.clone(),
+                output_idx: i,
+                output_name: format!("key{i}"),
+            })
+            .collect();
+        let mut select_order = Vec::with_capacity(select.columns.len());
+        for item in &select.columns {
+            let position = match &item.expr {
+                BoundExpression::Aggregate { .. } => {
+                    agg_columns.push(BoundSelectItem {
+                        expr: item.expr.clone(),
+                        output_idx: agg_columns.len(),
+                        output_name: item.output_name.clone(),
+                    });
+                    agg_columns.len() - 1
+                }
+                other => select.group_by.iter().position(|key| key == other)?,
+            };
+            select_order.push(BoundSelectItem {
+                expr: BoundExpression::ColumnBinding(Binding {
+                    table_id: None,
+                    scope_index: 0,
+                    column_idx: position,
+                    data_type: item.expr.data_type(),
+                }),
+                output_idx: item.output_idx,
+                output_name: item.output_name.clone(),
+            });
+        }
+        let schema = Schema::new_table(
+            agg_columns
+                .iter()
+                .map(|item| Column::new_with_defaults(item.expr.data_type(), &item.output_name))
+                .collect(),
+        );
+        Some((agg_columns, schema, select_order))
     }
 
     fn build_project(
